@@ -37,7 +37,7 @@ def eligible(prog):
             for _ in range(n):
                 if stack:
                     stack.pop()
-        elif s.role == "simple" and not s.label and stack:
+        elif s.role == "simple" and stack and (not s.label or len(s.label) <= 3):
             top = stack[-1]
             fam = top.text.lower().split()[0].rstrip(",")
             if fam in ("type", "enum", "interface", "abstract", "select", "where", "forall"):
@@ -104,22 +104,23 @@ def render(prog, ch, form, nvariants):
         if var.endswith("cont-in-literal"):
             ls = literal_split(s)
             pre = (s.name + ": " if s.name else "")
+            fpre = (s.label + " " if s.label else "") + pre
             if ls < 0:
                 var = "indent" if form == "free" else "!$"
             elif form == "free":
                 # the statement is continued in the middle of a character literal
-                new = [ind + "!$ " + pre + s.text[:ls] + "&", ind + "!$ &" + s.text[ls:]]
+                new = [ind + "!$ " + fpre + s.text[:ls] + "&", ind + "!$ &" + s.text[ls:]]
                 lines += new
                 sent_lines += new
                 continue
             else:
-                head = "!$    " + pre + s.text[:ls]
+                head = "!$" + (s.label or "").ljust(3) + " " + pre + s.text[:ls]
                 if len(head) <= 72:
                     new = [head + " " * (72 - len(head)) if False else head.ljust(72) if s.text[ls - 1] != " " and False else head, "!$   &" + s.text[ls:]]
                     # fixed form: a literal continued over lines is only defined
                     # when the cut is in column 72; pad in front of the statement
                     padn = 72 - len(head)
-                    new = ["!$    " + " " * padn + pre + s.text[:ls], "!$   &" + s.text[ls:]]
+                    new = ["!$" + (s.label or "").ljust(3) + " " + " " * padn + pre + s.text[:ls], "!$   &" + s.text[ls:]]
                     lines += new
                     sent_lines += new
                     continue
@@ -131,7 +132,7 @@ def render(prog, ch, form, nvariants):
                 new = ["!$ " + s.line()]
             else:
                 a, b = s.text[:k], s.text[k + 1 :]
-                pre = (s.name + ": " if s.name else "")
+                pre = (s.label + " " if s.label else "") + (s.name + ": " if s.name else "")
                 first = ind + "!$ " + pre + a + " &"
                 if var == "cont-amp":
                     new = [first, ind + "!$ & " + b]
@@ -142,11 +143,12 @@ def render(prog, ch, form, nvariants):
         else:
             body = (s.name + ": " if s.name else "") + s.text
             sen = var[:2]
+            lab3 = (s.label or "").ljust(3)
             if var.endswith("cont") and k >= 0:
                 a, b = s.text[:k], s.text[k + 1 :]
-                new = [sen + "    " + (s.name + ": " if s.name else "") + a, sen + "   & " + b]
+                new = [sen + lab3 + " " + (s.name + ": " if s.name else "") + a, sen + "   & " + b]
             else:
-                new = [sen + "    " + body]
+                new = [sen + lab3 + " " + body]
         lines += new
         sent_lines += new
     return {
